@@ -2,7 +2,8 @@
 # run_all.sh [quick|thorough] — every check in turn; one summary line each
 cd "$(dirname "$0")/.."
 tier="${1:-quick}"
-for p in $(python3 -c "import json;print(' '.join(c['property_id'] for c in json.load(open('MANIFEST.json'))['checks']))"); do
+# optional: VERIF_ORDER="C03 C04 ..." restricts / orders the properties
+for p in ${VERIF_ORDER:-$(python3 -c "import json;print(' '.join(c['property_id'] for c in json.load(open('MANIFEST.json'))['checks']))")}; do
   s=$(date +%s); out=$(./run_check.sh $p $tier 2>&1); rc=$?; e=$(date +%s)
   echo "$p rc=$rc $((e-s))s $(echo "$out" | grep -E '^(OK|VIOLATION|BROKEN|KNOWN)' | head -3 | tr '\n' ' ' | cut -c1-200)"
 done
